@@ -70,6 +70,8 @@ FAMILY = [
     ("default_expression_structure", "python", "structure", '<p tal:content="name">x</p>', "PageTemplate", "PageTemplate"),
     ("tokenizer", None, "iter_text", 'hello <b tal:content="name">x</b> there', "PageTemplate", "PageTemplate"),
     ("default_marker", None, "MY", '<p tal:content="m">dflt</p>', "PageTemplate", "PageTemplate"),
+    # the table of expression compilers (python: handled as a string)
+    ("expression_types", None, "PY_AS_STRING", '<p tal:content="name">x</p> ${name}', "PageTemplate", "PageTemplate"),
     # runtime-only options: sharing an entry is *correct* for these
     ("encoding", None, "utf-8", '<p tal:content="name">x</p>', "PageTemplate", "PageTemplate"),
     ("extra_builtins_value", {"foo": 1}, {"foo": 2}, "<p>${foo}</p>", "PageTemplate", "PageTemplate"),
@@ -214,6 +216,10 @@ class C15(CheckBase):
             if k == "tokenizer" and v == "iter_text":
                 from chameleon.tokenize import iter_text
                 v = iter_text
+            if k == "expression_types" and v == "PY_AS_STRING":
+                from chameleon.tales import StringExpr
+                v = dict(self.zt.PageTemplate.expression_types,
+                         python=StringExpr)
             if k == "default_marker" and v == "MY":
                 from chameleon.astutil import Symbol
                 v = Symbol(MY_MARKER)
